@@ -69,21 +69,36 @@ def butter_pass(V, cut, gibbs, cls):
         calls = out.cx.cache.get('opaque-calls', [])
         bcalls = [c for c in calls if c[0].startswith('butter_b_')]
         fcalls = [c for c in calls if c[0] == 'filtfilt']
-        out.prove('exactly-one-butter-and-one-filtfilt-call', len(bcalls) == 1 and len(fcalls) == 1)
-        if len(bcalls) != 1 or len(fcalls) != 1:
+        out.prove('exactly-one-filtfilt-call-and-at-most-one-filter-design', len(bcalls) <= 1 and len(fcalls) == 1)
+        if len(bcalls) > 1 or len(fcalls) != 1:
             continue
-        out.prove('filter-type-from-None-pattern', bcalls[0][0] == 'butter_b_' + ftype)
-        order_arg, wn_arg = bcalls[0][1]
-        out.prove('requested-filter-order-is-used', T.seq(order_arg, 3))
         nyq = T.sdiv(Q('0.5'), dt)
-        if ftype == 'band':
-            ok = is_arr(wn_arg) and tuple(wn_arg.shape) == (2,)
-            out.prove('band-cut-off-is-a-pair', ok)
-            if ok:
-                out.prove('cut-off-normalised-by-nyquist', T.sand(T.seq(wn_arg[0], T.sdiv(V.real('f_lo'), nyq)), T.seq(wn_arg[1], T.sdiv(V.real('f_hi'), nyq))))
-        else:
-            out.prove('cut-off-normalised-by-nyquist', T.is_scalar(wn_arg) and T.seq(wn_arg, T.sdiv(V.real('f_hi' if ftype == 'low' else 'f_lo'), nyq)))
+        if len(bcalls) == 1:
+            out.prove('filter-type-from-None-pattern', bcalls[0][0] == 'butter_b_' + ftype)
+            order_arg, wn_arg = bcalls[0][1]
+            out.prove('requested-filter-order-is-used', T.seq(order_arg, 3))
+            if ftype == 'band':
+                ok = is_arr(wn_arg) and tuple(wn_arg.shape) == (2,)
+                out.prove('band-cut-off-is-a-pair', ok)
+                if ok:
+                    out.prove('cut-off-normalised-by-nyquist', T.sand(T.seq(wn_arg[0], T.sdiv(V.real('f_lo'), nyq)), T.seq(wn_arg[1], T.sdiv(V.real('f_hi'), nyq))))
+            else:
+                out.prove('cut-off-normalised-by-nyquist', T.is_scalar(wn_arg) and T.seq(wn_arg, T.sdiv(V.real('f_hi' if ftype == 'low' else 'f_lo'), nyq)))
         b_arg, a_arg, x_arg = fcalls[0][1]
+        # whatever route the coefficients took (designed now, or handed over from an earlier request): they are the Butterworth design of
+        # THIS request -- type from the None pattern, order 3, cut-off(s) normalised by the Nyquist frequency
+        from pyvc.np_models2 import butter_fn
+        import z3 as _z3
+        w0 = T.sdiv(V.real('f_lo' if ftype in ('band', 'high') else 'f_hi'), nyq)
+        w1 = T.sdiv(V.real('f_hi'), nyq) if ftype == 'band' else Q(0)
+        ncoef = (6 if ftype == 'band' else 3) + 1
+        okc = is_arr(b_arg) and is_arr(a_arg) and tuple(b_arg.shape) == (ncoef,) and tuple(a_arg.shape) == (ncoef,)
+        out.prove('filter-coefficients-have-the-length-of-the-requested-design', okc)
+        if okc:
+            for which, arr in (('b', b_arg), ('a', a_arg)):
+                F = butter_fn(which, ftype)
+                out.prove('filtfilt-%s-coefficients-are-the-Butterworth-design-of-this-request' % which,
+                          T.sand(*[T.seq(arr[k], T.N(F(_z3.IntVal(3), T.to_z3(T.to_real(w0)), T.to_z3(T.to_real(w1)), _z3.IntVal(k)))) for k in range(ncoef)]))
         filt = V.np.sp_filtfilt(b_arg, a_arg, x_arg)               # the (hash-consed) result of that very call
         if gibbs is None:
             off = 0
